@@ -25,13 +25,14 @@
 (***************************************************************************)
 EXTENDS Naturals, Sequences, FiniteSets, TLC, Json
 
-CONSTANTS Comps,      \* sequence of compositions (trees)
+CONSTANTS Comps,      \* set of [id |-> n, t |-> tree]: the compositions
           NameSet,    \* set of names
           LeafHas     \* leaf id -> set of names it has
 
-VARIABLES c, name, stack, ret, asked
+VARIABLES c, tree, name, stack, ret, asked,    \* c = id of the composition, tree = the composition
+          want                               \* what the abstract layer says for (tree, name): [res, asked, cands]
 
-vars == <<c, name, stack, ret, asked>>
+vars == <<c, tree, name, stack, ret, asked, want>>
 
 None == <<"none">>
 NF == <<"TemplateNotFound">>
@@ -81,9 +82,11 @@ Pop == SubSeq(stack, 1, Len(stack) - 1)
 SetTopI(k) == [stack EXCEPT ![Len(stack)].i = k]
 
 Init ==
-    /\ c \in 1..Len(Comps)
+    /\ \E comp \in Comps : c = comp.id /\ tree = comp.t
     /\ name \in NameSet
-    /\ stack = <<Frame(Comps[c], name, <<>>)>>
+    /\ want = [res |-> AbstractResult(tree, name), asked |-> AbstractAsked(tree, name),
+               cands |-> Candidates(tree, name)]
+    /\ stack = <<Frame(tree, name, <<>>)>>
     /\ ret = None
     /\ asked = <<>>
 
@@ -92,31 +95,31 @@ LeafLookup ==
     /\ ret' = IF Top.n \in LeafHas[Top.t.id] THEN Src(Top.t.id, Top.n) ELSE NF
     /\ asked' = Append(asked, <<Top.t.id, Top.n>>)
     /\ stack' = Pop
-    /\ UNCHANGED <<c, name>>
+    /\ UNCHANGED <<c, tree, name, want>>
 
 \* for loader in self.loaders: try: return loader.get_source(...)
 ChoiceTry ==
     /\ stack # <<>> /\ Top.t.k = "choice" /\ ret = None /\ Top.i < Len(Top.t.subs)
     /\ stack' = Append(SetTopI(Top.i + 1), Frame(Top.t.subs[Top.i + 1], Top.n, Top.pre))
-    /\ UNCHANGED <<c, name, ret, asked>>
+    /\ UNCHANGED <<c, tree, name, ret, asked, want>>
 
 \* except TemplateNotFound: pass   (the loop goes on with ChoiceTry / ChoiceExhausted)
 ChoiceCatch ==
     /\ stack # <<>> /\ Top.t.k = "choice" /\ ret = NF
     /\ ret' = None
-    /\ UNCHANGED <<c, name, stack, asked>>
+    /\ UNCHANGED <<c, tree, name, stack, asked, want>>
 
 ChoiceReturn ==
     /\ stack # <<>> /\ Top.t.k = "choice" /\ ret # None /\ ret # NF
     /\ stack' = Pop
-    /\ UNCHANGED <<c, name, ret, asked>>
+    /\ UNCHANGED <<c, tree, name, ret, asked, want>>
 
 \* raise TemplateNotFound(template) after the loop
 ChoiceExhausted ==
     /\ stack # <<>> /\ Top.t.k = "choice" /\ ret = None /\ Top.i = Len(Top.t.subs)
     /\ ret' = NF
     /\ stack' = Pop
-    /\ UNCHANGED <<c, name, asked>>
+    /\ UNCHANGED <<c, tree, name, asked, want>>
 
 \* prefix, name = template.split(self.delimiter, 1); loader = self.mapping[prefix]
 PrefixRoute ==
@@ -126,7 +129,7 @@ PrefixRoute ==
            rest == RouteRest(Top.t, Top.n)
            cut == SubSeq(Top.n, 1, Len(Top.n) - Len(rest))
        IN stack' = Append(SetTopI(1), Frame(Top.t.subs[j], rest, Top.pre \o cut))
-    /\ UNCHANGED <<c, name, ret, asked>>
+    /\ UNCHANGED <<c, tree, name, ret, asked, want>>
 
 \* ValueError (no delimiter) / KeyError (unknown prefix) -> TemplateNotFound
 PrefixNoRoute ==
@@ -134,13 +137,13 @@ PrefixNoRoute ==
     /\ RouteIdx(Top.t, Top.n) = 0
     /\ ret' = NF
     /\ stack' = Pop
-    /\ UNCHANGED <<c, name, asked>>
+    /\ UNCHANGED <<c, tree, name, asked, want>>
 
 \* result of the delegate, or its TemplateNotFound re-raised with the full name
 PrefixReturn ==
     /\ stack # <<>> /\ Top.t.k = "prefix" /\ ret # None /\ Top.i = 1
     /\ stack' = Pop
-    /\ UNCHANGED <<c, name, ret, asked>>
+    /\ UNCHANGED <<c, tree, name, ret, asked, want>>
 
 Done ==
     /\ stack = <<>> /\ ret # None
@@ -156,19 +159,18 @@ Spec == Init /\ [][Next]_vars /\ WF_vars(Next)
 Finished == stack = <<>>
 
 \* the answer is the source of the first candidate that has the name
-C28_ChoiceFirst == Finished => ret = AbstractResult(Comps[c], name)
+C28_ChoiceFirst == Finished => ret = want.res
 
 \* TemplateNotFound exactly when no candidate has the name
 C28_NotFoundIffNone ==
-    Finished => LET cs == Candidates(Comps[c], name)
-                IN ret = NF <=> \A k \in 1..Len(cs) : ~Has(cs[k])
+    Finished => (ret = NF <=> \A k \in 1..Len(want.cands) : ~Has(want.cands[k]))
 
 \* every active call works on the original name minus the prefixes routed so far
 C28_PrefixRouting == \A k \in 1..Len(stack) : stack[k].pre \o stack[k].n = name
 
 \* leaves are consulted in candidate order, and not beyond the first hit
 C28_AskedInOrder ==
-    LET aa == AbstractAsked(Comps[c], name)
+    LET aa == want.asked
     IN /\ Len(asked) <= Len(aa) /\ asked = SubSeq(aa, 1, Len(asked))
        /\ Finished => asked = aa
 
